@@ -399,6 +399,13 @@ def _check(ctx, tmp):
     odd_file = os.path.join(odd_dir, "Table-2024.CSV")
     _sh.copy(wfile, odd_file)
     whomes.append(("mixed-case-path", mkhome(root, "w-mixed", config="Currency-Path-Is-Not-A-Key = 1\ncurrency-path = %s\n" % odd_file), "eur"))
+    # a RELATIVE currency-path means what a relative path means everywhere else in the program (the export writes
+    # `--scrape-currency-to rates.csv` into the working directory): the file in the directory Ka is started from
+    for j_, rel in enumerate(("rates.csv", "./rates.csv", "tables/rates.csv")):
+        h_ = mkhome(root, "w-rel%d" % j_, config="currency-path=%s\n" % rel)
+        os.makedirs(os.path.dirname(os.path.join(h_, rel)) or h_, exist_ok=True)
+        _sh.copy(wfile, os.path.join(h_, rel))       # run_batch starts Ka with cwd = this home
+        whomes.append(("relative-path-%d" % j_, h_, "eur"))
     # a per-dollar table need not carry the dollar itself: the same rows without the usd row are still THE table
     nousd = [r for r in wt if r[0] != "usd"]
     nousd_text = "".join("%s,%s,%r\n" % tuple(r) for r in nousd)
